@@ -950,3 +950,26 @@ def show(e, depth=0):
     if k == "proj":
         return "%s.%s" % (show(e[1], depth + 1), ".".join(str(p) for p in e[2]))
     return k
+
+
+def reach_alternatives(fn, bb):
+    """Condition lists under which `bb` is entered, one per incoming (non back-) edge:
+    path_conditions(pred) + the atom of the edge pred->bb.  A block reached through `a || b`
+    has one alternative per disjunct."""
+    alts = []
+    preds = [p for p in fn.pred()[bb] if not fn.dominates(bb, p)]
+    if not preds:
+        return [[(None, e, v) for _d, e, v in path_conditions(fn, bb)]]
+    for p in preds:
+        conds = list(path_conditions(fn, p))
+        atoms = edge_atoms(fn, p).get(bb)
+        if atoms:
+            conds.append((p, atoms[0][0], atoms[0][1]))
+        elif fn.blocks[p]["t"]["k"] == "goto" or fn.blocks[p]["t"]["k"] in ("call", "drop", "assert"):
+            # straight-line predecessor: its own alternatives apply
+            sub = reach_alternatives(fn, p) if len(fn.pred()[p]) >= 1 and p != bb else [conds]
+            for s in sub:
+                alts.append(list(s))
+            continue
+        alts.append(conds)
+    return alts
